@@ -50,7 +50,8 @@ def run(prog, body, which, tc=None):
         recv.append(r0)
         return ("sym", "TEXEL")
     fl = S._opaque("FLOOR")
-    models = {"AsSlice2::as_slice2": m_view, "Inner::<T, D>::as_slice2": m_view, "core::ops::index::Index::index": m_index, "ops::index::Index<": m_index,
+    models = {"core::ops::deref::Deref::deref": lambda it, args, c, d: args[0],      # the texture's buffer is a placeholder: its Deref is not interpreted
+              "AsSlice2::as_slice2": m_view, "Inner::<T, D>::as_slice2": m_view, "core::ops::index::Index::index": m_index, "ops::index::Index<": m_index,
               "f32>::floor": fl, "$float::fallback::floor": fl, "$::floorf": fl, "$float::mm::floor": fl, "$float::libm::floor": fl,
               "f32>::clamp": S._opaque("fclamp"), "f32>::min": S._opaque("fmin"), "f32>::max": S._opaque("fmax"),
               "f32>::is_sign_negative": lambda it, a, c, d: ("symop", "is_sign_negative", A.deref_all(it, a[0]), None)}
